@@ -428,12 +428,13 @@ def p_C13(ctx):
     shapes = [0, 11, 13, 31, 23, 32, 33] if ctx.quick else ALL_SHAPES4
     r = acc_tlc(ctx, "prims", ["prim"], shapes, kinds=("owned", "plain", "slice_m"), depth=1,
                 bigs=(BIG_MAX, BIG_WRAP) if ctx.quick else (BIG_MAX, BIG_HALF1, BIG_P32, BIG_WRAP), workers=8 if ctx.quick else 12)
-    combos = [("dev", "u32"), ("release", "elem"), ("dev", "elem")]
+    combos = [("dev", "u32"), ("release", "elem"), ("dev", "elem"), ("release", "b3")]      # b3: a 3-byte element type
     if not ctx.quick:
-        combos += [("release", "u32"), ("dev", "zst")]
+        combos += [("release", "u32"), ("dev", "zst"), ("dev", "b3")]
     acc_replays(ctx, r, combos, "prims")
     acc_random(ctx, ["prim"], 3000 if ctx.quick else 40000, 12, profile="dev")
     acc_random(ctx, ["prim"], 2000 if ctx.quick else 20000, 12, profile="release", elem="elem", label="big-elem")
+    acc_random(ctx, ["prim"], 2000 if ctx.quick else 20000, 12, profile="release", elem="b3", label="big-b3")
 
 
 def p_C14(ctx):
@@ -446,7 +447,7 @@ def p_C14(ctx):
     shapes = [0, 11, 13, 31, 23, 32, 33] if ctx.quick else ALL_SHAPES4
     r = acc_tlc(ctx, "copies", ["copy"], shapes, kinds=("owned", "plain", "slice_m"), depth=1,
                 bigs=(BIG_MAX,) if ctx.quick else (BIG_MAX, BIG_HALF1, BIG_WRAP), workers=8 if ctx.quick else 12)
-    combos = [("dev", "u32"), ("release", "u32"), ("dev", "elem")]
+    combos = [("dev", "u32"), ("release", "b3"), ("dev", "elem")] + ([] if ctx.quick else [("release", "u32"), ("dev", "b3")])
     acc_replays(ctx, r, combos, "copies")
     acc_random(ctx, ["copy"], 9000 if ctx.quick else 80000, 12, profile="dev", large_share=0.4)
     acc_random(ctx, ["copy"], 6000 if ctx.quick else 40000, 12, profile="release", label="big-rel", large_share=0.4)
@@ -463,7 +464,7 @@ def p_C15(ctx):
     r = acc_tlc(ctx, "moves-owned", ["move"], big_shapes, kinds=("owned", "plain"), depth=0, workers=8)
     acc_replays(ctx, r, [("dev", "u32"), ("release", "elem")], "moves-owned")
     r2 = acc_tlc(ctx, "moves-views", ["move"], [13, 31, 23, 32, 33] if ctx.quick else ALL_SHAPES4, kinds=("owned", "slice_m"), depth=1, workers=8)
-    acc_replays(ctx, r2, [("dev", "u32"), ("release", "u32"), ("dev", "elem")], "moves-views")
+    acc_replays(ctx, r2, [("dev", "u32"), ("release", "b3"), ("dev", "elem")], "moves-views")
     acc_random(ctx, ["move"], 4000 if ctx.quick else 60000, 16, profile="dev")
     acc_random(ctx, ["move"], 2000 if ctx.quick else 30000, 16, profile="release", elem="elem", label="big-elem")
 
@@ -475,13 +476,15 @@ def sort_pipeline(ctx, by):
     shapes = [0, 11, 13, 31, 23, 32, 33, 14, 41] if ctx.quick else ALL_SHAPES4
     r = acc_tlc(ctx, "sorts", [grp], shapes, kinds=("owned", "plain", "slice_m"), depth=1,
                 bigs=(BIG_MAX, BIG_WRAP), workers=8 if ctx.quick else 12)
-    combos = [("dev", "u32"), ("release", "elem")]
+    combos = [("dev", "u32"), ("release", "elem"), ("release", "b3")]
     if not ctx.quick:
-        combos += [("dev", "elem"), ("release", "u32")]
+        combos += [("dev", "elem"), ("release", "u32"), ("dev", "b3")]
     acc_replays(ctx, r, combos, "sorts")
     # long key lines: recorded from the real crate by the random driver, judged by TLC (SortTrace.tla)
     want = "row" if by == "row" else "col"
-    n = 160 if ctx.quick else 1500
+    acc_random(ctx, ["sort"], 3000 if ctx.quick else 40000, 14, profile="dev")
+    acc_random(ctx, ["sort"], 1500 if ctx.quick else 20000, 14, profile="release", elem="b3", label="big-b3")
+    n = 500 if ctx.quick else 5000
     for prof in ("dev", "release"):
         ctx.drive_and_validate("bigsorts", ["sort", ctx.seed + (0 if prof == "dev" else 7919), n, "{out}"], "SortTrace", attr_sort_event,
                                profile=prof, invariants=("StableDefsAgree",), filter_event=lambda e: e.get("by") == want)
@@ -632,7 +635,8 @@ def attr_serde(case, fail):
 
 
 def serde_tlc(ctx, name, strata, maxlen):
-    extra = {1040, 40001, 7009, 64002, 5005} if ctx.quick else {1040, 40001, 7009, 64002, 5005, 1300, 300001, 33033, 17002, 2017, 128003}
+    # (shapes are encoded 1000*nc + nr; the two with ~263 k cells cross serde's 1 MiB pre-allocation cap for u32)
+    extra = {1040, 40001, 7009, 64002, 5005, 877300, 300877} if ctx.quick else {1040, 40001, 7009, 64002, 5005, 1300, 300001, 33033, 17002, 2017, 128003, 877300, 300877, 999999}
     cfg = cfg_text(constants={"Strata": set(strata), "MaxLen": maxlen, "RtMax": 3 if ctx.quick else 5, "RtExtra": extra}, invariants=SERDE_INVS)
     return ctx.tlc_run(name, "SerdeMC", cfg, workers=8)
 
@@ -902,26 +906,52 @@ PIPELINES = {
 }
 
 
+TRACE_INVS = {"TooDeeTrace": ("ShapeOK", "HandleOK"), "SortTrace": ("StableDefsAgree",)}
+
+
 def rerun(prop, path):
-    """Re-execute the case stored in a replay file."""
+    """Re-execute what a replay file describes: a TLC-emitted case, a random case judged by a trace specification, or a
+    seed-determined driver run."""
+    import subprocess
+    path = os.path.abspath(path)
     with open(path) as f:
         rec = json.load(f)
+    module = rec.get("trace_module", "TooDeeTrace")
+    invs = TRACE_INVS.get(module, ("TypeOK",))
+    if rec.get("driver_mode") and rec.get("driver"):
+        cmd = rec["driver"].split()
+        logp = path + ".rerun.events.ndjson"
+        cmd = [c if not c.endswith(".events.ndjson") else logp for c in cmd]
+        r = subprocess.run(cmd, stdout=subprocess.PIPE, stderr=subprocess.PIPE, text=True)
+        if r.returncode != 0:
+            print("the driver process died again (rc=%s)" % r.returncode)
+            print("VIOLATION property=%s replay=%s" % (prop, path))
+            return 1
+        ok, rejected, _ = core.validate_trace(os.path.dirname(path), "rerun", module, logp, invariants=invs)
+        if rejected:
+            print(json.dumps([r.get("event") for r in rejected][:3], indent=1)[:3000])
+            print("VIOLATION property=%s replay=%s" % (prop, path))
+            return 1
+        print("the driver's trace is accepted on the current tree")
+        return 0
+    if rec.get("case") is None:
+        print("this replay file holds no re-executable case (see its 'source' field)")
+        return 2
     tmp = path + ".case.ndjson"
     with open(tmp, "w") as f:
         f.write(json.dumps(rec["case"]) + "\n")
     n, fails = core.replay(tmp, profile=rec.get("profile", "dev"), elem=rec.get("elem", "elem"), cap=rec.get("cap", 0),
-                           extra_args=rec.get("extra_args", ()))
+                           extra_args=[a for a in rec.get("extra_args", ()) if a != "--log" and not str(a).endswith(".ndjson")])
     if rec.get("trace") and not fails:
         logp = tmp + ".events"
         if os.path.exists(logp):
             os.unlink(logp)
         core.replay(tmp, profile=rec.get("profile", "dev"), elem=rec.get("elem", "elem"), cap=rec.get("cap", 0), extra_args=("--log", logp))
-        ok, rejected, _ = core.validate_trace(os.path.dirname(path), "rerun", rec.get("trace_module", "TooDeeTrace"), logp,
-                                              invariants=("ShapeOK", "HandleOK"))
+        ok, rejected, _ = core.validate_trace(os.path.dirname(path), "rerun", module, logp, invariants=invs)
         fails = [r["event"] for r in rejected]
     os.unlink(tmp)
     if fails:
-        print(json.dumps(fails, indent=1))
+        print(json.dumps(fails, indent=1)[:4000])
         print("VIOLATION property=%s replay=%s" % (prop, path))
         return 1
     print("case conforms on the current tree")
